@@ -412,7 +412,11 @@ def tsolver_jobs(seed, tier):
 PLANS["C22"] = {
     "module": "TSolver_Trace", "pre": lambda: driver_build(),
     "jobs": tsolver_jobs,
-    "mc": [{"module": "MC_TSolver"}],
+    "mc": [{"module": "MC_TSolver"},
+           {"module": "MC_ArrayLemmas"},
+           {"module": "MC_ArrayLemmas", "cfg": "MC_ArrayLemmas_recompute"},
+           {"module": "MC_ArrayLemmas", "cfg": "MC_ArrayLemmas_keep", "expect_fail": True, "owner": False},
+           {"module": "MC_ArrayLemmas", "cfg": "MC_ArrayLemmas_logged", "expect_fail": True, "owner": False}],
     "per_batch": 6,
     "remap": lambda v: "C22" if v.get("p") in ("C22",) else v.get("p"),
     "rule": "operation sequences (declare / assert / retract / check) on the LA, EUF, array and difference-logic solvers through TSolverHandler: "
